@@ -25,6 +25,7 @@ type payload struct {
 	Program *lang.Program        `json:"program"`
 	Inputs  map[string]*lang.Val `json:"inputs"`
 	Source  string               `json:"source"` // echo
+	HostMod bool                 `json:"hostmod,omitempty"`
 }
 
 func render(p *lang.Program) (string, map[string]string) {
@@ -36,7 +37,7 @@ func render(p *lang.Program) (string, map[string]string) {
 	return src, mods
 }
 
-func refRun(p *lang.Program, inputs map[string]*lang.Val, pol ref.Policy) *ref.Outcome {
+func refRun(p *lang.Program, inputs map[string]*lang.Val, pol ref.Policy, hostMod bool) *ref.Outcome {
 	memo := map[int]ref.Value{}
 	in := map[string]ref.Value{}
 	names := make([]string, 0, len(inputs))
@@ -47,7 +48,11 @@ func refRun(p *lang.Program, inputs map[string]*lang.Val, pol ref.Policy) *ref.O
 	for _, k := range names {
 		in[k] = ref.FromVal(inputs[k], pol, memo)
 	}
-	return ref.Run(p, in, pol, ref.DefaultConfig())
+	cfg := ref.DefaultConfig()
+	if hostMod {
+		cfg.HostMods = bridge.HostModRef()
+	}
+	return ref.Run(p, in, pol, cfg)
 }
 
 // compileClass maps tengo's compile error text to the resolver's classes.
@@ -84,10 +89,10 @@ type verdict struct {
 
 // decide runs the reference under every policy and the code under test, and
 // compares. It returns a discard reason, or a failure message, or neither.
-func decide(p *lang.Program, inputs map[string]*lang.Val) verdict {
+func decide(p *lang.Program, inputs map[string]*lang.Val, hostMod bool) verdict {
 	var outs []*ref.Outcome
 	for _, pol := range ref.Policies {
-		o := refRun(p, inputs, pol)
+		o := refRun(p, inputs, pol, hostMod)
 		if o.Status == "abort" {
 			reason := o.Abort
 			if i := strings.Index(reason, ":"); i > 0 {
@@ -107,10 +112,14 @@ func decide(p *lang.Program, inputs map[string]*lang.Val) verdict {
 	src, mods := render(p)
 	if tf := os.Getenv("VERIF_TRACE"); tf != "" {
 		// last case handed to the code under test (for fatal crashes)
-		b, _ := json.Marshal(payload{Program: p, Inputs: inputs, Source: src})
+		b, _ := json.Marshal(payload{Program: p, Inputs: inputs, Source: src, HostMod: hostMod})
 		_ = os.WriteFile(tf, b, 0o644)
 	}
-	res := bridge.Run(src, mods, inputs, bridge.Config{})
+	bcfg := bridge.Config{}
+	if hostMod {
+		bcfg.Modules = bridge.HostModuleMap()
+	}
+	res := bridge.Run(src, mods, inputs, bcfg)
 	v := verdict{ref: o, res: res}
 	switch res.Status {
 	case "panic":
@@ -202,22 +211,22 @@ func classify(p *lang.Program, o *ref.Outcome, feat map[string]int) (nontrivial 
 		classes = append(classes, "has-modules")
 	}
 	for k := range feat {
-		if strings.HasPrefix(k, "builtin:") || strings.HasPrefix(k, "for-in-") {
+		if strings.HasPrefix(k, "builtin:") || strings.HasPrefix(k, "for-in-") || strings.Contains(k, "module") || strings.HasPrefix(k, "tpl:") {
 			classes = append(classes, "gen:"+k)
 		}
 	}
 	return s.Steps >= 8 && n >= 2, classes
 }
 
-func check(t ev.TB, test string, p *lang.Program, inputs map[string]*lang.Val, feat map[string]int) {
-	v := decide(p, inputs)
+func check(t ev.TB, test string, p *lang.Program, inputs map[string]*lang.Val, feat map[string]int, hostMod bool) {
+	v := decide(p, inputs, hostMod)
 	if v.discard != "" {
 		ev.Discard(v.discard)
 		return
 	}
 	src, _ := render(p)
 	if v.fail != "" {
-		ev.Fail(t, test, payload{Program: p, Inputs: inputs, Source: src}, "%s\n--- source ---\n%s", v.fail, src)
+		ev.Fail(t, test, payload{Program: p, Inputs: inputs, Source: src, HostMod: hostMod}, "%s\n--- source ---\n%s", v.fail, src)
 		return
 	}
 	if v.ref.RErr != nil && v.res.Status == "runtime-error" {
@@ -245,8 +254,12 @@ func TestRefDifferential(t *testing.T) {
 		if rapid.IntRange(0, 3).Draw(t, "withModules") == 0 {
 			o.Modules = []string{"m1", "m2"}[:1+rapid.IntRange(0, 1).Draw(t, "nMods")]
 		}
+		hostMod := rapid.Bool().Draw(t, "hostMod")
+		if hostMod {
+			o.HostMods = []string{bridge.HostModName}
+		}
 		p, feat := gen.Program(t, o, inputs)
-		check(t, "TestRefDifferential", p, inputs, feat)
+		check(t, "TestRefDifferential", p, inputs, feat, hostMod)
 	})
 }
 
@@ -258,7 +271,7 @@ func replayFile(t *testing.T, path string) {
 	if err != nil {
 		t.Fatalf("load %s: %v", path, err)
 	}
-	check(t, test, p.Program, p.Inputs, map[string]int{})
+	check(t, test, p.Program, p.Inputs, map[string]int{}, p.HostMod)
 }
 
 func TestReplay(t *testing.T) {
